@@ -15,8 +15,19 @@ if ! (cd "$scratch/repo" && patch -p1 -s --no-backup-if-mismatch < "$diff"); the
   echo "PATCH-FAILED $diff"; exit 2
 fi
 rc=0
+# MUTCHECK_FAST=1: first look only at the packages the diff touches (every
+# violation found this way is also a violation of the full check); fall back to
+# the full check when nothing is found
+pkgs=$(grep '^+++ b/' "$diff" | sed 's|^+++ b/||' | xargs -n1 dirname | sort -u | sed 's|^\.$|go-structform|' | paste -sd'|')
 for p in $props; do
-  out=$(VERIF_REPO="$scratch/repo" VERIF_REPLAY_DIR="$scratch/replays" "$root/bin/govc" check -prop "$p" -no-evidence 2>&1)
+  out=""
+  if [ -n "${MUTCHECK_FAST:-}" ] && [ -n "$pkgs" ]; then
+    out=$(VERIF_REPO="$scratch/repo" VERIF_REPLAY_DIR="$scratch/replays" "$root/bin/govc" check -prop "$p" -no-evidence -fn "($pkgs)::" 2>&1)
+    echo "$out" | grep -q '^VIOLATION' || out=""
+    # a filter that selects no function of this property is not a finding
+    echo "$out" | grep -q 'no obligations generated' && out=""
+  fi
+  [ -z "$out" ] && out=$(VERIF_REPO="$scratch/repo" VERIF_REPLAY_DIR="$scratch/replays" "$root/bin/govc" check -prop "$p" -no-evidence 2>&1)
   if echo "$out" | grep -q '^VIOLATION'; then
     echo "KILLED   $p $(basename "$diff"): $(echo "$out" | grep -c '^VIOLATION') violation(s), first: $(echo "$out" | grep '^VIOLATION' | head -1 | sed 's/.*obligation=//' | cut -c1-140)"
   else
